@@ -3,6 +3,9 @@ import S2T.Model.Observe
 import S2T.Model.InputStream
 import S2T.Model.History
 import S2T.Spec.C06Cells
+import S2T.Model.CoreDates
+import S2T.Model.ObserveArgs
+import S2T.Gen.Ambient
 namespace S2T.Drv.C06
 open Lean S2T.Drv S2T.Observe S2T.InputStream
 
@@ -95,8 +98,44 @@ def overlayOp (j : Json) : Except String Json := do
 def cellsOp : Except String Json :=
   return Json.mkObj [("volatile", Json.arr (S2T.Spec.C06Cells.volatileCells.map Json.str).toArray)]
 
+/-- op `c06.coredates` {"parts":[[name, created|null, modified|null],…], "now": "…"} ↦ {"created","modified"}: what the
+    model of the CURRENT source reports (the guard reads the part named by the literal the translator found, openpyxl
+    reads its ARC_CORE) -/
+def coreDatesOp (j : Json) : Except String Json := do
+  let partsJ ← getArr j "parts"
+  let parts ← partsJ.toList.mapM (fun p => do
+    let a ← p.getArr?
+    let name ← (a[0]?.getD Json.null).getStr?
+    let opt (x : Json) : Except String (Option String) := if x.isNull then pure none else some <$> x.getStr?
+    let c ← opt (a[1]?.getD Json.null)
+    let m ← opt (a[2]?.getD Json.null)
+    pure (name, (⟨c, m⟩ : S2T.CoreDates.Core)))
+  let now ← getStr j "now"
+  let guardPart := S2T.Gen.Ambient.guardReads.headD "<none>"
+  let d := S2T.CoreDates.dates (fun _ => guardPart) S2T.Gen.Ambient.libCorePart (S2T.CoreDates.ofList parts) now
+  return Json.mkObj [("created", Json.str d.1), ("modified", Json.str d.2)]
+
+/-- op `c06.slidetext` {"base": "…", "formulas": [[is_display, latex],…], "descs": ["…"], "flags": [bool,…]}
+    ↦ {"texts": [get_text(flag) per flag]} -/
+def slideTextOp (j : Json) : Except String Json := do
+  let base ← getStr j "base"
+  let fJ ← getArr j "formulas"
+  let formulas ← fJ.toList.mapM (fun f => do
+    let a ← f.getArr?
+    let d ← (a[0]?.getD Json.null).getBool?
+    let l ← (a[1]?.getD Json.null).getStr?
+    pure (d, l))
+  let dJ ← getArr j "descs"
+  let descs ← dJ.toList.mapM (fun d => d.getStr?)
+  let flJ ← getArr j "flags"
+  let flags ← flJ.toList.mapM (fun d => d.getBool?)
+  let s : S2T.ObserveArgs.Slide := ⟨base, formulas, descs⟩
+  return Json.mkObj [("texts", Json.arr (flags.map (fun f => Json.str (S2T.ObserveArgs.text s f))).toArray)]
+
 def handle (op : String) (j : Json) : Option (Except String Json) :=
   match op with
+  | "c06.coredates" => some (coreDatesOp j)
+  | "c06.slidetext" => some (slideTextOp j)
   | "c06.stream" => some (streamOp j)
   | "c06.instream" => some (inStreamOp j)
   | "c06.overlay" => some (overlayOp j)
